@@ -113,6 +113,7 @@ CHECKS.update({
 CHECKS.update({
     "C09": dict(
         technique="TLA+ implementation-shaped model of the size-cache protocol (GenCodec: recompute variant and concurrent readers model-checked, templates-as-found kept as expected violation) "
+                  "+ TLAPS proofs for any number of readers / histories of any length (proofs/GenCodecProof) "
                   "+ TLC trace validation of operation histories against the fresh-copy oracle, with the model's cache word run along the trace (TraceGen!NextMc, guarded deviation Stale)",
         text="seeded random histories over {set, clear, grow, shrink, set nested, Size, Marshal, MarshalTo, csproto.Size/Marshal, runtime Size/Marshal, Unmarshal, Reset, Clone} on generated "
              "types of three flavours; after every step the object is projected and a fresh deep copy is built by the walkers and marshaled - every Size/Marshal must equal the fresh copy's; "
@@ -138,7 +139,7 @@ CHECKS.update({
 CHECKS.update({
     "C11": dict(
         technique="TLA+ spec (Dispatch: MsgType cache protocol, DispatchTable: per-flavour decision table) + TLC model checking of all interleavings of racing first classifications "
-                  "(MCDispatch; store-before-deduce kept as expected violation) + TLC trace validation of recorded csproto API calls on every flavour (TraceDispatch)",
+                  "(MCDispatch; store-before-deduce kept as expected violation) + TLAPS proof of the protocol for any number of goroutines (proofs/DispatchProof) + TLC trace validation of recorded csproto API calls on every flavour (TraceDispatch)",
         text="every corpus fast-marshal type of gogo / google-v2 / legacy google-v1 plus plain well-known and descriptor types of both module families, and values no runtime owns, go "
              "through csproto.{Marshal, Unmarshal, Size, Clone, Equal, Reset, MarshalText, GrpcCodec, MsgType}; the harness measures agreement with the owning runtime's own function in both "
              "directions; G goroutines race on first classification after VerifResetMsgTypeCache (separate processes for fresh caches).",
@@ -151,8 +152,9 @@ CHECKS.update({
              "descriptor probes (descriptor of another runtime) must give false/error and leave the message untouched.",
         note="trusted: TLC, the owning runtime's extension API as oracle; the size-cache word is zeroed before the marshal observation (C09's recorded finding is not C12's)", ref="7 (C12)"),
     "C18": dict(
-        technique="TLA+ spec (TraceDispatch!JsonOK: option/effect table and acceptance table of the JSON adapters) + TLC trace validation of recorded MarshalJSON/UnmarshalJSON calls over the "
-                  "option product",
+        technique="TLA+ implementation-shaped model of one adapter call (JsonAdapter: nil check, delegation, detection order, per-runtime option wiring) + TLC model checking of the "
+                  "documented requirement over every message kind x option set x input feature (three wiring/ordering slips kept as expected violations) + matrix coverage of "
+                  "the model's reachable cells by the recorded calls + TLC trace validation of every recorded MarshalJSON/UnmarshalJSON call (TraceDispatch!JsonOK)",
         text="corpus message values (enums, 64-bit integers, bytes, maps, oneofs, nested, well-known and descriptor types) x three flavours x 2^3 marshal options x indent strings: output must "
              "be valid JSON, decode with the adapter and with the runtime's own JSON decoder to an equal message, and show exactly the option's effect; unmarshal inputs with/without unknown "
              "keys and missing required fields x 2^2 options must be accepted exactly as documented; nil and non-pointer values.",
